@@ -120,12 +120,14 @@ func (s *Schema) AddType(name string, sc jschema.Schema) (err error) {
 	switch typ := sc.(type) {
 	case *Schema:
 		if err := typ.load(); err != nil {
-			return fmt.Errorf("load added type: %w", err)
+			// Returned as it is: it is the error of the type's own file, with
+			// its position and code.
+			return err
 		}
 
 		if typ.inner.RootNode() == nil {
 			// A type without an example cannot be checked or validated against.
-			return fmt.Errorf("load added type: %w", errors.NewDocumentError(typ.file, errors.ErrEmptySchema))
+			return errors.NewDocumentError(typ.file, errors.ErrEmptySchema)
 		}
 
 		// The type lives in its own file: errors found inside it carry positions
@@ -146,7 +148,7 @@ func (s *Schema) AddType(name string, sc jschema.Schema) (err error) {
 		// that are not valid in a JSON string.
 		typSc := New(name, fmt.Sprintf("%s // {regex: %s}", jsonQuote(string(example)), jsonQuote(pattern)))
 		if err := typSc.load(); err != nil {
-			return fmt.Errorf("load added type: %w", err)
+			return err
 		}
 
 		s.inner.AddNamedType(name, typSc.inner, typSc.file, 0)
